@@ -148,3 +148,18 @@ for _pid, _s in MORE.items():
     if _pid in CLAIMED:
         t, text, note, ref = CLAIMED[_pid]
         CLAIMED[_pid] = (t, text + " Further classes: " + _s + ".", note, ref)
+
+# classes added in the thirteenth round of seeded changes (R17; DESIGN.md §8)
+R17 = {
+    "C03": "unreliable messages under a tick budget: every triple over 9 lengths, one per tick, x 9 budgets x direction on a lossless link (only whole submitted messages, each at most once)",
+    "C05": "the attacker answers challenges with the keys of the invalid tokens it owns too (foreign key, foreign protocol id, wrong host list)",
+    "C10": "limits requested above the library maximum of 1024 (clamped) with overlapping handshakes for the last places; ids without a session resolve to nothing in every lookup",
+    "C11": "reconnect class also after a local client that left through disconnect_local_client; broadcast_message / broadcast_message_except in the new session's standard exchange",
+    "C13": "fill sweep across slices: small + sliced + small of every length 1-1300 in one flush, started 0-7 packets before each sequence-width boundary",
+    "C14": "7 budgets x 2 channel lists with 2500-3601-byte unreliable messages (budgets covering some of their slices) beside a reliable channel",
+    "C20": "transport-level lookups (user_data, time_since_last_received_packet) agree with the session authenticated for the id and answer nothing for ids without one",
+}
+for _pid, _s in R17.items():
+    if _pid in CLAIMED:
+        t, text, note, ref = CLAIMED[_pid]
+        CLAIMED[_pid] = (t, text + " Round R17: " + _s + ".", note, ref)
